@@ -272,6 +272,7 @@ Proof.
   - destruct (_ || _ || _ || _); [exact I|]. destruct H as (A & B & C).
     destruct (connection s); (eapply wps_some; [cbn; reflexivity|]); rr; auto.
   - destruct (dsnap s); [|exact I]. apply destroy_rest_R. eapply R_frame; [|eauto]; reflexivity.
+  - destruct (_ || _ || _ || _); [exact I|]. destruct (k_chan s) as [[i [|]]|]; try exact I. destruct (_ || _ || _); exact I.
   - apply wps_ret. eapply R_frame; [|eauto]; reflexivity.
   - destruct (k_chan s) as [[i [|]]|]; try exact I. destruct (k_dead s); [exact I|]. apply handleWrite_R; auto.
   - destruct (k_chan s) as [[i [|]]|]; try exact I. destruct (k_dead s); [exact I|]. apply handleError_R; auto.
